@@ -94,6 +94,15 @@ MANIFEST = {
                  "addresses, cwd, env) and "
                  "diff outputs of identical (argv, seed)",
 }
+SIMULATED_TIME = ("each in-process execution reads a simulated clock that "
+                  "starts at a drawn epoch (1970 .. 2106) and UTC offset "
+                  "(-12 h .. +14 h) and advances one microsecond per read; "
+                  "the two executions of a run are up to 136 simulated years "
+                  "apart; fresh interpreters differ by TZ (26 h apart)")
+# fresh interpreters take seconds each when the machine is busy; running time
+# is not part of this property
+RUN_TIMEOUT_S = 240
+TIMEOUT_IS_VIOLATION = False
 CONFIGS = {
     "quick": [("inproc", 1800), ("lib", 6000), ("proc", 130)],
     "thorough": [("inproc", 6), ("lib", 2), ("proc", 3)],
@@ -389,7 +398,7 @@ def _exec_proc(case, ctx):
         p = subprocess.run([sys.executable, "-W", "ignore", "-c",
                             _DRIVER % (tool, tool)] + argv,
                            input=stdin, capture_output=True, env=env,
-                           cwd=cwds[cw], timeout=50)
+                           cwd=cwds[cw], timeout=110)
         outs.append((p.returncode, p.stdout, p.stderr, hs, cw))
         ctx.fault("fresh_process")
     for path in written:
